@@ -12,21 +12,46 @@ from ..typed import Typed, is_set_type
 ENTRY = "find.get_citations"
 
 # reasoned exceptions, one line each: (function qualname, substring of the normalised construct) -> reason
-SET_ORDER_EXCEPTIONS = {
-    ("tokenizers.HyperscanTokenizer.hyperscan_db.convert_regex", "''.join(set(long_chars))"):
-        "members of a regex character class [..]: their order does not change the language",
-    ("find._extract_full_citation", "cite_sources"):
-        "text of the ValueError raised for an unknown source tag (unreachable: C01 R-C01-2); not an extraction result",
-}
-CALL_EXCEPTIONS = {
-    ("annotate.SpanUpdater.update", "updater(offset)"):
-        "elements of self.updaters are functools.partial objects over the two nested pure helpers shift_offset/replace_offset (checked: no writes)",
-}
-USER_CALLABLE_EXCEPTIONS = {
-    ("clean.clean_text", "step_func(text)"): "a custom cleaning step supplied by the caller is outside the claim (default steps are module functions)",
-    ("annotate.SpanUpdater.update", "bisect(self.offsets, offset)"): "callers pass bisect.bisect_left / bisect_right (stdlib, pure)",
-    ("annotate.annotate_citations", "annotator(before, span_text, after)"): "not on the extraction path; user callback",
-}
+def _set_order_exception(q: str, node: ast.AST) -> Optional[str]:
+    """reasoned exceptions, one line each, recognised by shape (not by local names)"""
+    cur = node
+    while cur is not None and not isinstance(cur, ast.stmt):
+        par = getattr(cur, "parent", None)
+        for cand in (cur, par):
+            if q.endswith("hyperscan_db.convert_regex") and isinstance(cand, ast.Call) and isinstance(cand.func, ast.Attribute) and cand.func.attr == "join" \
+                    and isinstance(cand.func.value, ast.Constant) and cand.func.value.value == "":
+                par = cand
+                break
+        if q.endswith("hyperscan_db.convert_regex") and isinstance(par, ast.Call) and isinstance(par.func, ast.Attribute) and par.func.attr == "join" \
+                and isinstance(par.func.value, ast.Constant) and par.func.value.value == "":
+            gp = getattr(par, "parent", None)
+            while gp is not None and not isinstance(gp, ast.JoinedStr) and not isinstance(gp, ast.stmt):
+                gp = getattr(gp, "parent", None)
+            if isinstance(gp, ast.JoinedStr) and any(isinstance(v, ast.Constant) and "[" in v.value for v in gp.values):
+                return "members of a regex character class [..]: their order does not change the language"
+        cur = par
+    if q == "find._extract_full_citation" and isinstance(cur, ast.Raise):
+        return "text of the ValueError raised for an unknown source tag (unreachable: C01 R-C01-2); not an extraction result"
+    return None
+
+
+def _call_exception(q: str, c: ast.Call, fn: ast.FunctionDef) -> Optional[str]:
+    if q == "annotate.SpanUpdater.update" and isinstance(c.func, ast.Name):
+        d = [s for s in stmts_local(fn.body) if isinstance(s, ast.Assign) and norm(s.targets[0]) == c.func.id]
+        if len(d) == 1 and isinstance(d[0].value, ast.Subscript) and norm(d[0].value.value).endswith(".updaters"):
+            return ("elements of self.updaters are functools.partial objects over the two nested pure helpers shift_offset/replace_offset "
+                    "(checked: no writes)")
+    return None
+
+
+def _user_callable_exception(q: str, c: ast.Call, fn: ast.FunctionDef) -> Optional[str]:
+    if q == "clean.clean_text":
+        return "a custom cleaning step supplied by the caller is outside the claim (default steps are module functions)"
+    if q == "annotate.SpanUpdater.update" and isinstance(c.func, ast.Name) and c.func.id in [a.arg for a in fn.args.args]:
+        return "callers pass bisect.bisect_left / bisect_right (stdlib, pure)"
+    if q == "annotate.annotate_citations" and isinstance(c.func, ast.Name) and c.func.id in [a.arg for a in fn.args.args]:
+        return "not on the extraction path; user callback"
+    return None
 AMBIENT_ALLOWED = {
     ("helpers", "<module>", "date.today()"): "upper bound of the accepted year range, read once at import (assumption: same calendar year)",
     ("models", "models.Edition.includes_year", "datetime.now()"): "edition end dates are compared with the current year (assumption: same calendar year)",
@@ -83,7 +108,7 @@ def run(ctx: Ctx):
         fs = eff.funcs[q]
         for c in fs.unknown_calls:
             key = (q, norm(c)[:60])
-            reason = next((r for (fq, sub), r in CALL_EXCEPTIONS.items() if fq == q and sub in norm(c)), None)
+            reason = _call_exception(q, c, fs.node)
             ctx.ob("R-C15-3", f"{q}/call:{norm(c.func)[:40]}", reason is not None,
                    reason or "call target cannot be resolved, so its effects are unknown", node=c, mod=fs.mod, nontrivial=False)
         for n in walk_local(fs.node):
@@ -95,7 +120,7 @@ def run(ctx: Ctx):
     for fq, c in eff.user_callables:
         if fq not in scope:
             continue
-        reason = next((r for (q2, sub), r in USER_CALLABLE_EXCEPTIONS.items() if q2 == fq and sub in norm(c)), None)
+        reason = _user_callable_exception(fq, c, eff.funcs[fq].node)
         ctx.ob("R-C15-3", f"{fq}/callable:{norm(c.func)[:30]}", reason is not None,
                reason or "call through a caller-supplied callable on the extraction path", node=c, mod=eff.funcs[fq].mod, nontrivial=False)
     # memo expressions depend on self only
@@ -136,9 +161,7 @@ def run(ctx: Ctx):
             ok = u.verdict == "SAFE"
             reason = None
             if not ok:
-                par = getattr(u.node, "parent", u.node)
-                text = norm(par)
-                reason = next((r for (fq, sub), r in SET_ORDER_EXCEPTIONS.items() if fq == q and (sub in text or sub in norm(u.node))), None)
+                reason = _set_order_exception(q, u.node)
             ctx.ob("R-C15-1", f"{q}/set-use", ok or reason is not None,
                    (u.reason if ok else (f"exception: {reason}" if reason else
                     f"{u.reason}: the iteration order of a set depends on PYTHONHASHSEED / object addresses and reaches a value")),
